@@ -8,6 +8,8 @@ job     = dict(kind="abs",  design=<abstract design of harness/vp/design.py>, un
         | dict(kind="gen",  gen=<generator design, see build_gen>)
         | dict(kind="example", name=str)
         | dict(kind="pdk", pdk=<python package of a PDK>, family="CORE"|"NONE")
+        | dict(kind="gparam", calls=[{"v": <value tree>, "w": int, "typed": bool}], tag=str)   (strengthening round)
+        | dict(kind="pdkreg", ops=[["import", pkg] | ["default", pkg] | ["compile", None | ["name", pkg] | ["module", pkg]]], family=str)
         + optional between=int : more unrelated allocation directly before this job
 
 result per job (property-level observables only):
@@ -34,6 +36,13 @@ def prework(pw):
             _KEEP.append(bytearray(r.randint(1, 5000)))
         if r.random() < 0.2 and _KEEP:
             _KEEP.pop(r.randrange(len(_KEEP)))
+    import types
+    for k in range(pw.get("mods", 0)):          # module objects and their dicts: the PDK registry is a set of module objects
+        m = types.ModuleType(f"junk{k}")
+        if r.random() < 0.7:
+            _KEEP.append(m)
+        if r.random() < 0.5:
+            _KEEP.append(dict(a=k))
     for k in range(pw.get("strs", 0)):
         _KEEP.append({f"w{r.randint(0, 10**6)}": k})
         _KEEP.append(h.Signal(name=f"pre{k}", width=r.randint(1, 4)))
@@ -130,6 +139,7 @@ def build_bd(d):
 # ---------------------------------------------------------------------------------------------
 # reference groups of scalar ports without an explicit signal
 #   cyc = {"insts":[[name, [ports]]], "edges":[[inst, port, inst2, port2]], "tag"}   edge: inst.port = inst2.port2
+#         optional "sigs": [explicit signal names], "ncs": [[inst, port]] ports connected to an unnamed NoConn
 # ---------------------------------------------------------------------------------------------
 def build_cyc(d):
     tag = d.get("tag", "")
@@ -144,8 +154,12 @@ def build_cyc(d):
             m.add(h.R(r=1)(p=m.get(ports[0]), n=m.get(ports[-1])), name="r0")
             kinds[key] = m
         top.add(h.Instance(of=kinds[key], name=name))
+    for n in d.get("sigs", []):             # explicit signals (names an implicit signal may collide with)
+        top.add(h.Signal(name=n))
     for a, p, b, q in d["edges"]:
         top.get(a).connect(p, getattr(top.get(b), q))
+    for i, p in d.get("ncs", []):           # unnamed no-connects: the elaborator names their signals <inst>_<port>
+        top.get(i).connect(p, h.NoConn())
     return top
 
 
@@ -195,6 +209,223 @@ def build_gen(d):
         else:
             top.add(Cell2(P2(w=c["w"], s=c["s"]))(a=s, b=top.z), name=f"c{k}")
     return top
+
+
+# ---------------------------------------------------------------------------------------------
+# generator parameters of every value kind (strengthening round)
+#   value tree: ["i", int] | ["s", str] | ["f", float.hex()] | ["b", bool] | ["n"] | ["e", "A"|"B"|"C"] | ["px", decimal text, prefix name]
+#             | ["t", [trees]] (tuple) | ["fs", [trees]] (frozenset, built from the members in THIS order) | ["pc", tree, tree] (nested paramclass)
+#   call: {"v": tree, "w": int, "typed": bool}   typed: the parameter's dtype is the typing expression of the tree (pydantic rebuilds the
+#   containers), else typing.Any
+# ---------------------------------------------------------------------------------------------
+_GP = {}
+
+
+def _gp_base():
+    if "base" not in _GP:
+        import enum
+
+        class Color(enum.Enum):
+            A = "a"
+            B = "b"
+            C = "c"
+
+        @h.paramclass
+        class InnerP:
+            a = h.Param(dtype=object, desc="first")
+            b = h.Param(dtype=object, desc="second")
+        _GP["base"] = (Color, InnerP)
+    return _GP["base"]
+
+
+def gp_dec(v):
+    from decimal import Decimal
+    t = v[0]
+    if t == "i":
+        return int(v[1])
+    if t == "s":
+        return str(v[1])
+    if t == "f":
+        return float.fromhex(v[1])
+    if t == "b":
+        return bool(v[1])
+    if t == "n":
+        return None
+    if t == "e":
+        return getattr(_gp_base()[0], v[1])
+    if t == "px":
+        return h.Prefixed(number=Decimal(v[1]), prefix=getattr(h.Prefix, v[2]))
+    if t == "t":
+        return tuple(gp_dec(x) for x in v[1])
+    if t == "fs":
+        return frozenset(gp_dec(x) for x in v[1])
+    if t == "pc":
+        return _gp_base()[1](a=gp_dec(v[1]), b=gp_dec(v[2]))
+    raise ValueError(t)
+
+
+def gp_type(v):
+    """(typing expression, key) of a homogeneous tree, or None"""
+    from typing import FrozenSet, Tuple
+    t = v[0]
+    if t == "i":
+        return int, "i"
+    if t == "s":
+        return str, "s"
+    if t in ("t", "fs"):
+        subs = [gp_type(x) for x in v[1]]
+        if not subs or any(x is None for x in subs) or len({k for _, k in subs}) != 1:
+            return None
+        ty, k = subs[0]
+        return (Tuple[ty, ...], "T" + k) if t == "t" else (FrozenSet[ty], "F" + k)
+    return None
+
+
+def gp_gen(dt, key):
+    if key not in _GP:
+        P = h.paramclass(type("GP" + key, (), {"v": h.Param(dtype=dt, desc="the value"), "w": h.Param(dtype=int, desc="width", default=1)}))
+
+        def Cell(p: P) -> h.Module:
+            m = h.Module()
+            m.a = h.Inout(width=p.w)
+            m.b = h.Inout()
+            return m                      # no primitive inside: the verilog netlister accepts it as well
+        Cell.__name__ = "Cell" + key
+        Cell.__qualname__ = "Cell" + key
+        _GP[key] = (P, h.generator(Cell))
+    return _GP[key]
+
+
+def gp_iter(x, out):
+    """the iteration order of every set inside the value, as texts (a coverage measurement, not an observable)"""
+    import dataclasses
+    if isinstance(x, (set, frozenset)):
+        out.append("{" + "|".join(repr(sorted(map(repr, y))) if isinstance(y, frozenset) else repr(y) for y in x) + "}")
+        for y in sorted(x, key=repr):
+            gp_iter(y, out)
+    elif isinstance(x, tuple):
+        for y in x:
+            gp_iter(y, out)
+    elif dataclasses.is_dataclass(x) and not isinstance(x, type):
+        for f in dataclasses.fields(x):
+            gp_iter(getattr(x, f.name), out)
+
+
+def build_gparam(d):
+    import json
+    from typing import Any
+    from hdl21.params import hdl21_naming_encoder
+    tag = d.get("tag", "")
+    top = h.Module(name="GpTop" + tag)
+    top.z = h.Signal()
+    texts, iters = [], []
+    for k, c in enumerate(d["calls"]):
+        ty = gp_type(c["v"]) if c.get("typed") else None
+        # the generators are the JOB's own (the tag is part of their name): the other designs of the session are UNRELATED earlier work.
+        # (With one generator shared by all jobs, `Any`-typed 1 / 1.0 / True of different jobs are one cached call named by its first
+        #  spelling — the recorded C09 limit — and the name would depend on the order of the jobs in the session.)
+        P, G = gp_gen(ty[0], ty[1] + tag) if ty else gp_gen(Any, "Any" + tag)
+        val = gp_dec(c["v"])
+        params = P(v=val, w=c["w"])
+        s = top.add(h.Signal(name=f"s{k}", width=c["w"]))
+        top.add(G(params)(a=s, b=top.z), name=f"c{k}")
+        try:
+            texts.append(json.dumps(params.v, default=hdl21_naming_encoder, sort_keys=True))
+        except Exception as e:
+            texts.append("!" + type(e).__name__)
+        it = []
+        gp_iter(params.v, it)
+        iters.append(it)
+    return top, dict(texts=texts, iters=iters)
+
+
+# ---------------------------------------------------------------------------------------------
+# the PDK registry (strengthening round): a whole design PROGRAM — imports of PDK packages, set_default, compiles — in this process.
+#   ops: ["import", pkg] | ["default", pkg] | ["compile", None | ["name", pkg] | ["module", pkg]]
+#   every compile builds the same small transistor-level design afresh and hands it to hdl21.pdk.compile
+# ---------------------------------------------------------------------------------------------
+def pdk_design(fam, tag):
+    from hdl21.prefix import µ
+    family = getattr(h.MosFamily, fam)
+    m = h.Module(name="RCell_" + tag)
+    m.vdd, m.vss, m.a, m.y = h.Port(), h.Port(), h.Port(), h.Port()
+    m.mn = h.Nmos(w=1 * µ, l=1 * µ, family=family)(d=m.y, g=m.a, s=m.vss, b=m.vss)
+    m.mp = h.Pmos(w=2 * µ, l=1 * µ, family=family)(d=m.y, g=m.a, s=m.vdd, b=m.vdd)
+    top = h.Module(name="RTop_" + tag)
+    top.vdd, top.vss, top.x = h.Signal(), h.Signal(), h.Signal(width=2)
+    top.i0 = m(vdd=top.vdd, vss=top.vss, a=top.x[0], y=top.x[1])
+    return top
+
+
+def pdk_module_of(pkgname):
+    """the python module a PDK package registers (its `compile` is the PDK's compiler)"""
+    import importlib, types
+    pk = importlib.import_module(pkgname)
+    for attr in ("pdk_logic", "pdk"):
+        m = getattr(pk, attr, None)
+        if isinstance(m, types.ModuleType) and hasattr(m, "compile"):
+            return m
+    raise RuntimeError(f"cannot find the registered module of {pkgname}")
+
+
+def run_pdkreg(job):
+    import hdl21.pdk
+    fam = job.get("family", "CORE")
+    mods = {}                # package name -> registered module, in order of import
+    steps, digests = [], []
+    for k, op in enumerate(job["ops"]):
+        try:
+            if op[0] == "import":
+                mods[op[1]] = pdk_module_of(op[1])
+                steps.append("none")
+            elif op[0] == "default":
+                m = pdk_module_of(op[1]) if op[1] in mods else None          # a package that was never imported is not registered
+                hdl21.pdk.set_default(m.__name__ if m is not None else op[1] + ".pdk_logic")
+                steps.append("none")
+            elif op[0] == "compile":
+                top = pdk_design(fam, str(k))
+                arg = op[1]
+                if arg is None:
+                    hdl21.pdk.compile(top)
+                elif arg[0] == "name":
+                    hdl21.pdk.compile(top, pdk=(mods[arg[1]].__name__ if arg[1] in mods else arg[1] + ".pdk_logic"))
+                else:
+                    m = pdk_module_of(arg[1])        # imports (= registers) the package when it was not imported yet
+                    mods.setdefault(arg[1], m)
+                    hdl21.pdk.compile(top, pdk=m)
+                o = observe(top)
+                digests.append(o)
+                # which PDK was it? compile the same design directly with every imported PDK's compiler and compare
+                target = "unknown"
+                for name, m in mods.items():
+                    ref = pdk_design(fam, str(k))
+                    try:
+                        m.compile(ref)
+                        if observe(ref)["pkg"] == o["pkg"]:
+                            target = name
+                            break
+                    except Exception:
+                        pass
+                steps.append("target:" + target)
+            else:
+                raise ValueError(op[0])
+        except RuntimeError as e:
+            steps.append("refused")
+            digests.append(dict(pkg="!RuntimeError", spice="!RuntimeError", spectre="!RuntimeError", verilog="!RuntimeError"))
+    out = dict(order=[], sigs=[], mods=[], steps=steps)
+    for f in ("pkg", "spice", "spectre", "verilog"):
+        out[f] = sha("|".join(d[f] for d in digests).encode()) if digests else "!nothing"
+    # the iteration order of a set holding the registered modules, built the way the registry builds its own (coverage measurement)
+    out["regorder"] = [m.__name__ for m in _same_history_set(mods.values())]
+    return out
+
+
+def _same_history_set(ms):
+    s = set()
+    for m in ms:
+        s.add(m)
+    return s
+
 
 
 def build_example(name):
@@ -294,6 +525,13 @@ def do(job):
             top = build_example(job["name"])
         elif k == "pdk":
             top = build_pdk(job["pdk"], job["family"])
+        elif k == "gparam":
+            top, extra = build_gparam(job)
+            out = observe(top)
+            out.update(extra)
+            return out
+        elif k == "pdkreg":
+            return run_pdkreg(job)
         elif k == "flat":          # hierarchy flattening (hdl21.flatten) of an abstract hierarchical design
             from hdl21.flatten import flatten
             top = flatten(Builder(job["design"], uniq=job.get("uniq", "")).build())
